@@ -18,7 +18,7 @@ RULE = ('scripted models over span types {range, list / tuple of str, NumPy int 
         '(so reversed, equal, boundary and unknown pairs are all present) x a fault (exception in a pass, exception in the pre-hook, '
         'NaN, +inf, non-convergence, warning) at each position in turn x errors / failures / catch_first_error / min_iter / max_iter / '
         'offset / tol sampled; lags and leads 0..2 incl. spans too short for them and explicit starts before the first feasible period; '
-        'solve_period(label) for every label spec; parser-built models (recursive, simultaneous, lagged and leading equations, 1/X[-1], '
+        'solve_period(label) for every label spec; iter_periods(start, end) itself for every pair (pairs and len() compared); parser-built models (recursive, simultaneous, lagged and leading equations, 1/X[-1], '
         'log) whose class-level LAGS / LEADS come from the real parser, the recorded per-pass columns being the model\'s script. Each case runs solve() (or solve_period) and, on a twin instance, the plain loop of '
         'solve_t over the positions the statement names. Non-trivial = at least two periods visited, or a fault / label error / '
         'infeasible period was met; distinct by hash of the whole case.')
@@ -145,6 +145,7 @@ def gen(rng, tier):
             for a in sp:
                 for b in sp:
                     cases.append(build(rng, st, n, a, b))
+                    cases.append(build(rng, st, n, a, b, entry='iter_periods', lags=rng.choice([0, 0, 1]), leads=rng.choice([0, 0, 1])))
                     if n == 0:
                         continue
                     if quick:
@@ -210,7 +211,7 @@ KNOWN_DEFAULTS_SIG = 'C05|default-start-end-looked-up-by-label|repeated-label'
 def default_by_label_class(case):
     """The class of the kept finding: solve() / iter_periods() turn a DEFAULT start / end position into its label and look that
     label up again; when that label is carried by several periods the round trip does not come back to the position."""
-    if case['entry'] != 'solve' or case['span_type'] in sc.SPAN_NODUP or case['n'] == 0:
+    if case['entry'] not in ('solve', 'iter_periods') or case['span_type'] in sc.SPAN_NODUP or case['n'] == 0:
         return False
     n = case['n']
     cnt = sc.label_counts(case)
@@ -252,12 +253,29 @@ def _oracle(case, obs):
             bad('locate|%s' % case['span_type'], 'the label of period %d of a %s span must resolve to the single position %d (a built-in int); '
                 'the lookup gave %s' % (i, case['span_type'], i, got))
             break
-    if o['min_iter'] > o['max_iter']:
+    if o['min_iter'] > o['max_iter'] and case['entry'] != 'iter_periods':
         if out[:2] != ['raise', 'ValueError'] or not unchanged:
             bad('min_iter>max_iter', 'min_iter > max_iter must raise ValueError before anything changes; got %s, unchanged=%s' % (out[:3], unchanged))
         return fails
+    if case['entry'] == 'iter_periods':
+        # iter_periods(start, end): exactly one (position, label) pair per position from start to end inclusive, in span order;
+        # len() of the result agrees; nothing is solved.  (Label errors of iter_periods itself are not part of the statement.)
+        if not unchanged:
+            bad('iter_periods|state', 'iter_periods() changed the model')
+        if exp[0] == 'empty':
+            if out[:2] != ['raise', 'SolutionError']:
+                bad('empty-span', 'iter_periods() on an empty span must raise SolutionError; got %s' % (out[:3],))
+        elif exp[0] == 'range':
+            a, b = exp[1], exp[2]
+            positions = list(range(a, b + 1))
+            want = ['ret', [obs['ids'][q] for q in positions], positions]
+            if out[:3] != want or out[5] != len(positions) or any(x != 'int' for x in out[4]):
+                bad('iter_periods|pairs', 'iter_periods(start=%r, end=%r) on a %s span of %d periods (lags %d, leads %d) must yield the pairs of '
+                    'positions %s with their labels and have that length; got %s' % (case['start'], case['end'], case['span_type'], n,
+                                                                                   case.get('lags', 0), case.get('leads', 0), positions, out))
+        return fails
     what_call = 'solve_period(%r)' % (case['start'],) if case['entry'] == 'solve_period' else 'solve(start=%r, end=%r)' % (case['start'], case['end'])
-    if exp[0] == 'keyerror':
+    if exp[0] == 'keyerror' and case['entry'] != 'iter_periods':
         if out[:2] != ['raise', 'KeyError'] or not unchanged:
             bad('bad-label', '%s on a %s span: an unknown / non-single label must raise KeyError before anything is solved; got %s, unchanged=%s'
                 % (what_call, case['span_type'], out[:3], unchanged))
@@ -305,6 +323,8 @@ def _oracle(case, obs):
 
 
 def nontrivial(case, obs):
+    if view(case, obs)['entry'] == 'iter_periods':
+        return obs['out'][0] == 'raise' or len(obs['out'][1]) >= 2
     visited = {e[1] for e in obs['log']}
     return len(visited) >= 2 or obs['out'][0] == 'raise' or any(s in ('F', 'E', 'S') for s in obs['status'])
 
